@@ -512,7 +512,31 @@ def _skipwords (ctx, repo):
     if not cs: ctx.undecided('R-AGREE', cls.qual, "skip words", "checksum slot not found in hdr()", cls, 'D4'); continue
     cs_off = cs[0]
     g = q.cfg_of(f)
+    # first by evaluation: the function is run (abstractly) for a segment under IPv4 and under IPv6 in verification mode; at the call of
+    # the module's checksum() the pseudo-header operand has a concrete length and the skip argument a concrete value
+    ev_done = set()
+    is_u = lambda e: isinstance(e, ast.Call) and call_name(e) == 'toUnsigned'
+    is_log = lambda e: isinstance(e, ast.Call) and call_name(e) in ('msg', 'err', 'warn')
+    ccalls = [(q.enclosing_stmt_node(g, c_), c_) for c_ in calls_in(f.node) if call_name(c_) == 'checksum' and len(c_.args) == 3 and isinstance(c_.func, ast.Name)]
+    for ver, pname in ((4, 'ipv4'), (6, 'ipv6')):
+      ex = {'self.prev.__class__.__name__': pname, 'self.prev.srcip.raw': b'\x01' * 16, 'self.prev.dstip.raw': b'\x02' * 16, 'self.prev.protocol': 6, 'self.prev.next_header_type': 6,
+            'self.raw': b'\x00' * 20, 'unparsed': True, 'payload': None}
+      found = []
+      for cn_, c_ in ccalls:
+        if cn_ is None or not isinstance(c_.args[0], ast.BinOp): continue
+        env = q.Env(dict(ex), [(is_u, 0x0a000001), (is_log, None)])
+        ks = q.values_at(repo, mod, g, env, cn_, c_.args[2], cls, limit=80); ps = q.values_at(repo, mod, g, env, cn_, c_.args[0].left, cls, limit=80)
+        if not ks and not ps: continue            # this call is not reached for this IP version
+        if len(ks) == 1 and len(ps) == 1 and isinstance(list(ks)[0], int) and isinstance(list(ps)[0], bytes): found.append((c_, list(ks)[0], len(list(ps)[0])))
+        else: found = None; break
+      if found:
+        for c_, k_, size_ in found:
+          want = (size_ + cs_off) // 2
+          n += 1; ev_done.add(ver)
+          ctx.ob('R-AGREE', f, "%s over IPv%d: skip word == (pseudo-header %d + checksum offset %d) / 2" % (cname.upper(), ver, size_, cs_off), k_ == want,
+                 "%d (evaluated)" % k_ if k_ == want else "checksum() is told to skip word %d but the checksum field is word %d of pseudo-header+segment: verification of received segments sums the wrong word" % (k_, want), (mod, c_), 'D4')
     for c in calls_in(f.node):
+      if len(ev_done) == 2 and not any(isinstance(a_, ast.IfExp) for a_ in c.args if call_name(c) == 'checksum'): break
       if call_name(c) == 'checksum' and len(c.args) == 3 and isinstance(c.func, ast.Name):
         k = q.try_int(c.args[2])
         cn = q.enclosing_stmt_node(g, c)
